@@ -1213,6 +1213,7 @@ func oracle(c core.Case, out []string) []core.Finding {
 	var aRV map[string]verdict
 	aLeft := -1 // recheck answers still to come (-1: no recheck being watched)
 	aResub := map[string]bool{}
+	aCommitted := map[string]bool{} // committed by an Update and not submitted again since
 	var qPrev int64
 	cfgPost := "-" // PostCheckMaxGas bound in force
 	// TTL (v1): admission time / height of the pooled txs as the op lines give them
@@ -1286,6 +1287,7 @@ func oracle(c core.Case, out []string) []core.Finding {
 			maxb, _ = atoi(m["maxbytes"])
 			cache, _ = atoi(m["cache"])
 			async = m["async"] == "1"
+			aCommitted = map[string]bool{}
 			cfgPost = "-"
 			admT, admH = map[string]int64{}, map[string]int64{}
 			curH, _ = atoi(m["h"])
@@ -1317,6 +1319,13 @@ func oracle(c core.Case, out []string) []core.Finding {
 		if size >= 0 && maxb >= 0 && (o.n > size || o.b > maxb) {
 			add(ver+".exceeds-configured-limits", fmt.Sprintf("Size()=%d SizeBytes()=%d exceed size=%d max_txs_bytes=%d", o.n, o.b, size, maxb))
 		}
+		if async {
+			for _, t := range o.all {
+				if aCommitted[t] {
+					add("v0.async.committed-tx-in-pool-after-update", fmt.Sprintf("tx %s was in a committed block (Update) and has not been submitted since, but is in the pool after op %d %q: an answer to a CheckTx sent before the commit was handled after Update", t, i, f[0]))
+				}
+			}
+		}
 		nextCommitted := ""
 		switch f[0] {
 		case "deliver":
@@ -1335,6 +1344,7 @@ func oracle(c core.Case, out []string) []core.Finding {
 		case "check":
 			if async {
 				aResub[normTok(m["tx"])] = true
+				delete(aCommitted, normTok(m["tx"]))
 				if o.res == "in-cache" || o.res == "full" || o.res == "too-large" || o.res == "pre" || o.res == "ok" {
 					if strings.Join(prev, ",") != strings.Join(o.all, ",") {
 						add("v0.async.check.changes-pool-before-answer", "CheckTx changed the pool before its answer was handled")
@@ -1423,6 +1433,9 @@ func oracle(c core.Case, out []string) []core.Finding {
 				nextCommitted = normTok(txl[len(txl)-1])
 			}
 			if async {
+				for _, t := range splitList(m["txs"]) {
+					aCommitted[normTok(t)] = true
+				}
 				// pending first-time answers are handled by FlushAppConn before Update; the recheck
 				// answers are handled later
 				aSnap, aLeft, aResub = o.all, len(o.all), map[string]bool{}
@@ -1965,6 +1978,52 @@ func genTTL(r *rand.Rand, emit func(core.Case), n int) {
 	}
 }
 
+// genAsyncCommit: a CheckTx still in flight when the block containing that very tx is committed
+// (empty or non-empty pool); its answer must be handled before Update, never after.
+func genAsyncCommit(r *rand.Rand, emit func(core.Case), n int) {
+	for c := 0; c < n; c++ {
+		ops := []string{fmt.Sprintf("cfg ver=0 size=%d maxbytes=1000 maxtx=1000 cache=%d keep=0 recheck=%d ttl=0 ttld=0 h=1 async=1", 2+r.Intn(5), r.Intn(6), r.Intn(2))}
+		h := 1
+		for round := 0; round < 3; round++ {
+			var inflight []string
+			if r.Intn(2) == 0 { // something already pooled
+				ops = append(ops, genCheck(r, alphabet[6+r.Intn(3)], 0), "deliver n=1000")
+			}
+			for i := 0; i < 1+r.Intn(3); i++ {
+				t := alphabet[r.Intn(6)]
+				inflight = append(inflight, t)
+				ops = append(ops, fmt.Sprintf("check tx=%s peer=%d code=0 gas=1 prio=0 sender=-", t, r.Intn(3)))
+			}
+			h++
+			ops = append(ops, fmt.Sprintf("update h=%d txs=%s codes=%s rv=- pre=- post=-", h, inflight[0], []string{"0", "1"}[r.Intn(2)]))
+			ops = append(ops, "deliver n=1", "deliver n=1000", "reapn n=-1")
+		}
+		emit(core.Case{Kind: "async-commit-v0", Ops: ops})
+	}
+}
+
+// genBigV1: pools of 13..200 entries with few distinct priorities interleaved (sort routines
+// switch algorithm above 12 elements), distinct arrival times; every reap must be in
+// "priority, then arrival" order.
+func genBigV1(r *rand.Rand, emit func(core.Case), n int) {
+	for c := 0; c < n; c++ {
+		k := 13 + r.Intn(28)
+		if c%10 == 0 {
+			k = 100 + r.Intn(101)
+		}
+		np := 2 + r.Intn(3)
+		ops := []string{fmt.Sprintf("cfg ver=1 size=%d maxbytes=100000 maxtx=1000 cache=%d keep=0 recheck=%d ttl=0 ttld=0 h=1", k+r.Intn(3), 2*k, r.Intn(2))}
+		for i := 0; i < k; i++ {
+			ops = append(ops, fmt.Sprintf("check tx=%04x peer=%d code=0 gas=%d prio=%d sender=-", 0x7000+i, r.Intn(3), r.Intn(3), r.Intn(np)))
+		}
+		ops = append(ops, "reapn n=-1", fmt.Sprintf("reapn n=%d", r.Intn(k)), "reap bytes=-1 gas=-1", fmt.Sprintf("reap bytes=%d gas=-1", 4*r.Intn(k+1)))
+		if r.Intn(2) == 0 {
+			ops = append(ops, fmt.Sprintf("update h=2 txs=%04x,%04x codes=0,0 rv=- pre=- post=-", 0x7000+r.Intn(k), 0x7000+r.Intn(k)), "reapn n=-1")
+		}
+		emit(core.Case{Kind: "big-v1", Ops: ops})
+	}
+}
+
 // genHostile: malformed / out-of-contract op lines (negative limits, unknown ops, bad hex, ops before cfg).
 func genHostile(r *rand.Rand, emit func(core.Case), n int) {
 	bad := []string{
@@ -2019,6 +2078,8 @@ func main() {
 			genConcurrentSame(r, emit, n/8, 1)
 			genAsync(r, emit, n/2)
 			genTTL(r, emit, n/2)
+			genAsyncCommit(r, emit, n/4)
+			genBigV1(r, emit, n/20)
 			genVarint(r, emit, n/10, 0)
 			genVarint(r, emit, n/10, 1)
 			if tier == "thorough" {
